@@ -28,8 +28,8 @@ PENDING = (" The unbounded theorems for this property are not all proved yet: pr
 TECH_X = "differential correspondence with the Coq model (extracted) + implementation-side property oracle; Coq theorems partial"
 
 CLAIMED = {
- "C01": P("Whole-parser Gallina model with explicit Panic/Hang/OutOfFuel results; every generated/adversarial document under random plugin subsets, orders and nesting limits must parse, walk and render (HTML, XHTML, recording renderer) without panic, abort or hang in debug and release builds, and agree with the model on tree, ranges, HTML and events." + PENDING % "C01", "DESIGN.md section 6 C01", category="exploration", technique=TECH_X),
- "C02": P("Nesting families at 1x..200x the limit under limits {0,1,2,3,10,100}: tree depth (emphasis wrappers not counted) <= 3*limit+4, measured recursion gauge (hook) <= limit+2, recursive walk returns; emphasis-only excess is the open known finding F3; model/implementation correspondence on the same inputs." + PENDING % "C02", "DESIGN.md section 6 C02", category="exploration", technique=TECH_X),
+ "C01": P("Machine-checked Coq proofs over the whole-parser model (explicit Panic/Hang/OutOfFuel outcomes): for EVERY parser object (any rule chain, any order, any cache state, any nesting limit) and every byte string, parse never ends in Hang or OutOfFuel -- the block line loop, the list-item loop, the inline position loop and the link-label scanner always advance (every inline rule that matches reports a positive length, skip_token and the skip cache only point forward) and the recursion never needs more than 2*max_nesting+10 nested calls; rendering has no such outcome either. NOT proved: absence of Panic (index/slice/unwrap/overflow/assert); that half is decided on every run by the model/implementation correspondence on tree, ranges, HTML and events plus the implementation-side no-panic/no-abort/no-hang oracle (debug and release builds) on generated and adversarial documents under random plugin subsets, orders and nesting limits.", "DESIGN.md section 6 C01"),
+ "C02": P("Machine-checked Coq proofs over the whole-parser model in which every nested tokenizer / skip_token call consumes a unit of an explicit recursion budget: for every input and rule chain the block tokenizer needs at most max_nesting+1-level nested calls, the inline tokenizer at most max_nesting+2-level, and parse never exhausts 2*max_nesting+10 (a smaller budget does run out: non-vacuity example). NOT proved: the bound on the depth of the produced tree (hence walk/render/drop); decided on every run by nesting families at 1x..200x the limit under limits {0,1,2,3,10,100}: tree depth (emphasis wrappers not counted) <= 3*limit+4, measured recursion gauge (hook) <= limit+2, recursive walk returns; emphasis-only excess is the open known finding F3; model/implementation correspondence on the same inputs.", "DESIGN.md section 6 C02"),
  "C03": P("Machine-checked Coq proofs: escape_html leaves no raw '<', '>' or double quote and is lossless for a reader decoding the four entities (all byte strings); text events and attribute names/values reach the output only through it, values always double-quoted (chunk structure of the serializer, see C19). NOT proved yet: that the parser never produces raw-HTML nodes without the HTML plugins, and proper nesting of the emitted elements; these are decided on every run by a strict reader of the renderer's output language applied to the implementation's HTML/XHTML for hostile and generated input under random plugin sets without the HTML plugins, and by the correspondence with the whole-parser model.", "DESIGN.md section 6 C03"),
  "C04": P("Machine-checked Coq proofs of the pipeline every destination goes through, for every byte string: a normalised link is printable ASCII only (side condition on the safe set, checked on the generated constant), what a browser reads from the escaped attribute (entities decoded, leading C0/space stripped, tab/LF/CR removed) is exactly the normalised link, validate_link on ASCII text is exactly 'does not start, in any letter case, with vbscript:/javascript:/file:/data: unless data:image/(gif|png|jpeg|webp);' (verdict of the modelled regex engine), hence a validated link is not dangerous when the browser reads it. NOT proved: that every Link/Image/Autolink url in a parse result went through this pipeline and that rejected constructs stay text; decided on every run by the browser-scheme oracle on the implementation's HTML for scheme x obfuscation x link-syntax tables and generated documents, norm/valid unit commands, and the model/implementation correspondence.", "DESIGN.md section 6 C04"),
  "C05": P("Range oracle (validity, boundaries, root, nesting, sibling order, faithful Text/TextSpecial) on every node of generated documents biased to tabs, multi-byte text, CR/CRLF and nested inline content; model/implementation correspondence on every range." + PENDING % "C05", "DESIGN.md section 6 C05", category="exploration", technique=TECH_X),
